@@ -715,6 +715,10 @@ int dhcp_fastpath_prog(struct xdp_md *ctx) {
 	/* Determine reply type */
 	__u8 reply_type = (msg_type == DHCP_DISCOVER) ? DHCP_OFFER : DHCP_ACK;
 
+	/* The reply options need room in the request's option area. Check this before any header
+	 * is rewritten: a frame handed to the slow path must be the frame that was received. */
+	CHECK_BOUNDS_PASS(pkt.dhcp->options, pkt.data_end, MAX_DHCP_REPLY_OPTIONS_LEN);
+
 	/* === Build DHCP Reply === */
 
 	/* Check if packet was relayed (giaddr != 0) */
@@ -766,14 +770,13 @@ int dhcp_fastpath_prog(struct xdp_md *ctx) {
 	__builtin_memset(pkt.dhcp->file, 0, sizeof(pkt.dhcp->file));
 
 	/* Build DHCP options */
-	CHECK_BOUNDS_PASS(pkt.dhcp->options, pkt.data_end, MAX_DHCP_REPLY_OPTIONS_LEN);
-
 	int opt_len = build_dhcp_options(pkt.dhcp->options, pkt.data_end,
 	                                  reply_type, pool, assignment,
 	                                  server_ip);
 	if (opt_len < 0) {
+		/* Headers are already rewritten: never hand a half-built reply to the slow path */
 		update_stat(STAT_ERROR);
-		return XDP_PASS;
+		return XDP_DROP;
 	}
 
 	/* Calculate total packet size */
@@ -799,8 +802,10 @@ int dhcp_fastpath_prog(struct xdp_md *ctx) {
 	int delta = (int)total_len - (int)orig_len;
 	if (delta != 0) {
 		if (bpf_xdp_adjust_tail(ctx, delta) != 0) {
+			/* Headers are already rewritten: drop (the client retransmits) instead of
+			 * passing a half-built reply to the slow path */
 			update_stat(STAT_ERROR);
-			return XDP_PASS;
+			return XDP_DROP;
 		}
 		/* Note: After adjust_tail, packet pointers are invalidated.
 		 * We've already written all header fields, so we can proceed
